@@ -91,10 +91,17 @@ pub fn build(cfg: &Cfg, reg: &Arc<Reg>) -> Box<dyn Subject> {
 
 // ---------------------------------------------------------------------------
 
-pub struct UnsyncSubject {
-    cache: mini_moka::unsync::Cache<TK, TV, VBuild>,
+pub struct UnsyncSubject<S = VBuild> {
+    cache: mini_moka::unsync::Cache<TK, TV, S>,
     clock: MockClock,
     reg: Arc<Reg>,
+}
+
+impl<S: std::hash::BuildHasher + Clone> UnsyncSubject<S> {
+    pub fn from_cache(mut cache: mini_moka::unsync::Cache<TK, TV, S>, reg: &Arc<Reg>) -> Self {
+        let clock = cache.verif_set_clock();
+        UnsyncSubject { cache, clock, reg: Arc::clone(reg) }
+    }
 }
 
 impl UnsyncSubject {
@@ -125,7 +132,7 @@ impl UnsyncSubject {
     }
 }
 
-impl Subject for UnsyncSubject {
+impl<S: std::hash::BuildHasher + Clone> Subject for UnsyncSubject<S> {
     fn kind(&self) -> Kind {
         Kind::Unsync
     }
@@ -212,8 +219,8 @@ impl Subject for UnsyncSubject {
 
 // ---------------------------------------------------------------------------
 
-pub struct SyncSubject {
-    pub cache: mini_moka::sync::Cache<TK, TV, VBuild>,
+pub struct SyncSubject<S = VBuild> {
+    pub cache: mini_moka::sync::Cache<TK, TV, S>,
     pub clock: MockClock,
     reg: Arc<Reg>,
 }
@@ -238,7 +245,7 @@ pub fn build_sync_cache(cfg: &Cfg) -> mini_moka::sync::Cache<TK, TV, VBuild> {
     b.build_with_hasher(VBuild { kind: cfg.hasher })
 }
 
-pub fn sync_snapshot(cache: &mini_moka::sync::Cache<TK, TV, VBuild>) -> Snap {
+pub fn sync_snapshot<S: std::hash::BuildHasher + Clone>(cache: &mini_moka::sync::Cache<TK, TV, S>) -> Snap {
     use mini_moka::sync::VerifDeque as D;
     let mut s = Snap::default();
     cache.verif_for_each_entry(|k, v, m| {
@@ -269,6 +276,13 @@ pub fn sync_snapshot(cache: &mini_moka::sync::Cache<TK, TV, VBuild>) -> Snap {
     s
 }
 
+impl<S: std::hash::BuildHasher + Clone + Send + Sync + 'static> SyncSubject<S> {
+    pub fn from_cache(cache: mini_moka::sync::Cache<TK, TV, S>, reg: &Arc<Reg>) -> Self {
+        let clock = cache.verif_set_clock();
+        SyncSubject { cache, clock, reg: Arc::clone(reg) }
+    }
+}
+
 impl SyncSubject {
     pub fn new(cfg: &Cfg, reg: &Arc<Reg>) -> Self {
         let cache = build_sync_cache(cfg);
@@ -281,7 +295,7 @@ impl SyncSubject {
     }
 }
 
-impl Subject for SyncSubject {
+impl<S: std::hash::BuildHasher + Clone + Send + Sync + 'static> Subject for SyncSubject<S> {
     fn kind(&self) -> Kind {
         Kind::Sync
     }
